@@ -69,22 +69,78 @@ def seeds():
     return [c for c in E.SEED_CONFIGS if not any(T.BANNER_RE.search(l) or l[:11] == "macro name " for l in c)]
 
 
+def plain_config(rng, blanks):
+    """a config without banner / macro starts; with `blanks`, some blank lines (dropped by ignore_blank_lines)"""
+    n = rng.randint(2, 10)
+    out = []
+    for _ in range(n):
+        if blanks and rng.random() < 0.2:
+            out.append(rng.choice(["", " ", "   "]))
+        else:
+            out.append(rng.choice(["", " ", "  ", "   ", "    "]) + rng.choice(["a", "b", "Eth1", "Eth10", "a.b", "a(b", "! c"]))
+    return out
+
+
+def directed_ops(rng, lines, width, ign=False):
+    """one operation aimed at the situations of the parent-frame theorems: child-level append to a childless
+    target, insert next to a line of the same indent, list-level insert above lines of one indent, a replace
+    that keeps indentation and kind"""
+    h = rng.randrange(0, 64)
+    kept = [l for l in lines if not (ign and l.strip() == "")] or ["x"]
+    tgt = kept[h % len(kept)]
+    ind = len(tgt) - len(tgt.lstrip())
+    word = rng.choice(["n", "Eth1", "a", "! k", "a.b"])
+    r = rng.random()
+    if r < 0.30:
+        mode = rng.random()
+        if mode < 0.5:
+            return ["atf", h, " " * (ind + width) + word, -1, False]
+        if mode < 0.8:
+            return ["atf", h, word, -1, True]
+        return ["atf", h, word, ind + width, False]
+    if r < 0.55:
+        return [rng.choice(["oib", "oia"]), h, " " * ind + word]
+    if r < 0.65:
+        return ["ins", rng.choice([0, 1, 2, 3, -1, -2]), " " * rng.choice([0, 1, 2]) + word]
+    if r < 0.80:
+        k = rng.choice([0, 1, 2])
+        rx = "^" + " " * k + r"[^ !]"
+        return [rng.choice(["lib", "lia"]), rx, " " * k + word]
+    if r < 0.90:
+        return ["rep", h, rng.choice(["a", "Eth1", "b", "1"]), rng.choice(["z", "zz", "Po"])]
+    return ["del", h]
+
+
 def cases(rng, tier):
     if tier != "search":
         for lines in seeds():
             for op in single_ops():
                 for syntax in ("ios", "nxos"):
                     yield E.mk_case(syntax, False, True, lines, [op], "single")
+            # the same single operations under ignore_blank_lines (a sample; blank payloads included)
+            for op in single_ops()[::3]:
+                yield E.mk_case("ios", True, True, lines, [op], "single-ign")
     n = {"quick": 1200, "thorough": 60000, "search": 2500}[tier]
     for _ in range(n):
         syntax = rng.choice(["ios", "ios", "nxos", "asa", "iosxr"])
         auto = rng.random() < 0.6
+        ign = rng.random() < 0.3
         if rng.random() < 0.5:
             lines = rng.choice(seeds())
         else:
-            lines = [rng.choice(["", " ", "  ", "   ", "    "]) + rng.choice(["a", "b", "Eth1", "Eth10", "a.b", "a(b", "! c"])
-                     for _ in range(rng.randint(2, 10))]
-        yield E.mk_case(syntax, False, auto, lines, E.rand_ops(rng, rng.choice([1, 2, 3, 4, 6]), auto))
+            lines = plain_config(rng, ign and rng.random() < 0.5)
+        yield E.mk_case(syntax, ign, auto, lines, E.rand_ops(rng, rng.choice([1, 2, 3, 4, 6]), auto))
+    # directed stream: auto-commit on (the parent theorems speak about committed states), 1..3 operations
+    m = {"quick": 900, "thorough": 30000, "search": 1500}[tier]
+    for _ in range(m):
+        syntax = rng.choice(["ios", "ios", "nxos", "asa"])
+        ign = rng.random() < 0.4
+        if rng.random() < 0.4:
+            lines = rng.choice(seeds())
+        else:
+            lines = plain_config(rng, ign and rng.random() < 0.5)
+        ops = [directed_ops(rng, lines, E.width_of(syntax), ign) for _ in range(rng.choice([1, 1, 2, 3]))]
+        yield E.mk_case(syntax, ign, True, lines, ops, "directed")
 
 
 def neighbours(case, rng):
@@ -119,10 +175,110 @@ def py_insert(lst, k, x):
     return l2
 
 
+# ---- the indentation rule seen from the texts only (independent of the model): used to replay the parent-frame
+# ---- theorems of Ccp.Props.C06 on the implementation's own dumps
+def line_info(t, delims):
+    st = t.lstrip()
+    cmt = st != "" and st[0] in delims
+    return (len(t) - len(st), st != "" and not cmt, cmt)     # indent, is_config_line, is_comment
+
+
+def is_plain(lines):
+    return not any(T.BANNER_RE.search(l) or l[:11] == "macro name " for l in lines)
+
+
+def comment_under_deeper(infos, j):
+    return j > 0 and infos[j][2] and infos[j - 1][0] > infos[j][0]
+
+
+def captured(infos, x, c, j):
+    """`captured_iff`: old line j >= c is adopted by the line x inserted at c"""
+    l = infos[j]
+    return (x[1] and x[0] < l[0] and not comment_under_deeper(infos, j)
+            and all(infos[m][0] >= l[0] for m in range(c, j) if infos[m][1]))
+
+
+def frame_insert(prev, par0, cur, par1, c, txt, delims):
+    """InsertFrame: one line `txt` inserted at position c"""
+    if cur != prev[:c] + [txt] + prev[c:]:
+        return None            # the text effect is judged elsewhere
+    infos = [line_info(t, delims) for t in prev]
+    x = line_info(txt, delims)
+    bad = []
+    for j in range(len(prev)):
+        if j < c:
+            if par1[j] != par0[j]:
+                bad.append(j)
+            continue
+        if j == c and infos[j][2]:
+            continue           # a comment directly behind the new line (C02's legacy rule)
+        want = c if captured(infos, x, c, j) else (par0[j] if par0[j] < c else par0[j] + 1)
+        if par1[j + 1] != want:
+            bad.append(j)
+    return f"insert-frame: old lines {bad} do not have the parent the frame theorem gives" if bad else None
+
+
+def frame_multi(prev, par0, cur, par1, rows, after, txt, delims):
+    """MultiFrame: a copy of `txt` before / after every matching line"""
+    origin = []
+    for i, t in enumerate(prev):
+        if rows[i] and not after:
+            origin.append(None)
+        origin.append(i)
+        if rows[i] and after:
+            origin.append(None)
+    want = [txt if o is None else prev[o] for o in origin]
+    if cur != want:
+        return None
+    bad = []
+    for q, o in enumerate(origin):
+        if o is None:
+            continue
+        if line_info(cur[q], delims)[2] and q > 0 and origin[q - 1] is None:
+            continue
+        np_ = par1[q]
+        if origin[np_] is None:
+            # adopted by a copy: only possible when the copy is a config line shallower than the line
+            xi = line_info(txt, delims)
+            if not (xi[1] and xi[0] < line_info(cur[q], delims)[0]):
+                bad.append(q)
+            continue
+        if par0[o] != origin[np_]:
+            bad.append(q)
+    return f"multi-insert-frame: new positions {bad} hold old lines with an unexpected parent" if bad else None
+
+
+def frame_replace(prev, par0, cur, par1, p, delims):
+    bad = [j for j in range(min(p, len(prev), len(cur))) if par1[j] != par0[j]]
+    if not bad and len(cur) == len(prev) and line_info(cur[p], delims) == line_info(prev[p], delims) and par1 != par0:
+        bad = [j for j in range(len(prev)) if par1[j] != par0[j]]
+    return f"replace-frame: lines {bad} changed parent" if bad else None
+
+
+def frame_delete(prev, par0, cur, par1, gone, delims):
+    keep = [j for j in range(len(prev)) if j not in gone]
+    if cur != [prev[j] for j in keep]:
+        return None
+    rank = {j: r for r, j in enumerate(keep)}
+    bad = []
+    for j in keep:
+        if line_info(prev[j], delims)[2] and j > 0 and (j - 1) in gone:
+            continue
+        if par0[j] not in rank or par1[rank[j]] != rank[par0[j]]:
+            bad.append(j)
+    return f"delete-frame: surviving lines {bad} changed parent" if bad else None
+
+
+def ins_pos(n, k):
+    return max(0, n + k) if k < 0 else min(k, n)
+
+
 def oracle(case, ans):
     steps = E.parse_answer(ans)
     fails = []
     width = E.width_of(case["syntax"])
+    ign = case["ignore_blank"]
+    delims = T.cfg_delims(case["syntax"], case["delims"])
     for idx, op in enumerate(case["ops"]):
         st_prev, _, prev, dump_prev, _ = steps[idx]
         status, _, cur, dump_cur, at = steps[idx + 1]
@@ -152,6 +308,7 @@ def oracle(case, ans):
                 fails.append(f"{tag}: unexpected {status}")
             continue
         n = len(prev)
+        rows = None
         if k == "ins":
             want = py_insert(prev, op[1], op[2])
         elif k == "app":
@@ -160,8 +317,8 @@ def oracle(case, ans):
             want = list(prev); want.pop(op[1])
         elif k in ("lib", "lia"):
             want = []
-            for t in prev:
-                hit = re.search(op[1], t) is not None
+            rows = [re.search(op[1], t) is not None for t in prev]
+            for t, hit in zip(prev, rows):
                 if hit and k == "lib":
                     want.append(op[2])
                 want.append(t)
@@ -188,14 +345,37 @@ def oracle(case, ans):
             continue
         else:
             want = prev
+        if ign and dump_cur is not None:
+            # the commit that followed dropped the blank lines (no banner / macro bodies in these configs)
+            want = [t for t in want if t.strip() != ""]
         if cur != want:
             fails.append(f"{tag}: texts {cur!r} expected {want!r}")
+            continue
+        # ---- replay of the parent-frame theorems on the implementation's own trees (plain configs, committed states)
+        if dump_prev is None or dump_cur is None or not is_plain(prev) or not is_plain(cur):
+            continue
+        par0, par1 = dump_prev["parents"], dump_cur["parents"]
+        f = None
+        if k in ("ins", "oib", "oia") and not (ign and op[2].strip() == ""):
+            c = ins_pos(n, op[1]) if k == "ins" else (at if k == "oib" else at + 1)
+            f = frame_insert(prev, par0, cur, par1, c, op[2], delims)
+        elif k in ("lib", "lia"):
+            f = frame_multi(prev, par0, cur, par1, rows, k == "lia", op[2], delims)
+        elif k in ("rep", "sub") and len(cur) == len(prev):
+            f = frame_replace(prev, par0, cur, par1, at, delims)
+        elif k == "del":
+            f = frame_delete(prev, par0, cur, par1, gone, delims)
+        if f:
+            fails.append(f"{tag}: {f}")
     return fails[:3]
 
 
 def check_atf(case, op, i, prev, cur, dump_prev, dump_cur, width):
     """exactly one line added, all other lines keep text and order; a child-level append lands inside the
     target's family and no existing line changes parent"""
+    if case["ignore_blank"] and op[2].strip() == "" and dump_cur is not None:
+        # a blank payload under ignore_blank_lines is dropped again by the commit (`blank_payload_ignored`)
+        return None if cur == prev else f"blank payload under ignore_blank_lines: texts {cur!r} from {prev!r}"
     if len(cur) != len(prev) + 1:
         return f"{len(cur) - len(prev)} lines added"
     cands = [j for j in range(len(cur)) if cur[:j] + cur[j + 1:] == prev]
@@ -256,7 +436,54 @@ def describe(case):
 
 
 def buckets(case, ans):
-    out = ["syntax:" + case["syntax"], "auto:%d" % case["auto_commit"], "ops:%d" % len(case["ops"])]
+    out = ["syntax:" + case["syntax"], "auto:%d" % case["auto_commit"], "ops:%d" % len(case["ops"]),
+           "ignore_blank:%d" % case["ignore_blank"]]
     for op, part in zip(case["ops"], ans.split("#")[1:]):
         out.append("op:" + op[0] + ":" + part.split("~")[0].split("@")[0])
+    # the situations of the parent-frame theorems (committed plain states, successful operation)
+    try:
+        steps = E.parse_answer(ans)
+    except Exception:  # noqa: BLE001
+        return out
+    delims = T.cfg_delims(case["syntax"], case["delims"])
+    width = E.width_of(case["syntax"])
+    ign = "ign" if case["ignore_blank"] else "noign"
+    for idx, op in enumerate(case["ops"]):
+        _, _, prev, dp, _ = steps[idx]
+        status, _, cur, dc, at = steps[idx + 1]
+        if status != "ok" or dp is None or dc is None or not is_plain(prev) or not is_plain(cur):
+            continue
+        k = op[0]
+        infos = [line_info(t, delims) for t in prev]
+        if k == "atf" and at is not None and len(cur) == len(prev) + 1:
+            kids = [j for j, q in enumerate(dp["parents"]) if q == at and j != at]
+            cands = [j for j in range(len(cur)) if cur[:j] + cur[j + 1:] == prev]
+            lvl = "?"
+            if cands:
+                d = line_info(cur[cands[0]], delims)[0] - infos[at][0]
+                lvl = "child" if d == width else ("same" if d == 0 else "other")
+            kind = "cfg" if infos[at][1] else "noncfg"
+            out.append(f"frame:atf:{'childless' if not kids else 'parent'}:{lvl}:{kind}-target:{ign}")
+        elif k in ("oib", "oia") and at is not None and len(cur) == len(prev) + 1:
+            x = line_info(op[2], delims)
+            rel = "same-indent" if x[0] == infos[at][0] else ("deeper" if x[0] > infos[at][0] else "shallower")
+            c = at if k == "oib" else at + 1
+            cap = sum(1 for j in range(c, len(prev)) if captured(infos, x, c, j))
+            out.append(f"frame:{k}:{rel}:{'cfg' if infos[at][1] else 'noncfg'}-target:{'captures' if cap else 'no-capture'}:{ign}")
+        elif k == "ins" and len(cur) == len(prev) + 1:
+            x = line_info(op[2], delims)
+            c = ins_pos(len(prev), op[1])
+            cap = sum(1 for j in range(c, len(prev)) if captured(infos, x, c, j))
+            out.append(f"frame:ins:{'captures' if cap else 'no-capture'}:{ign}")
+        elif k in ("lib", "lia"):
+            rows = [re.search(op[1], t) is not None for t in prev] if op[1] != "" else []
+            hits = [i for i, b in enumerate(rows) if b]
+            if hits:
+                x = line_info(op[2], delims)
+                same = all(infos[i][1] and infos[i][0] <= x[0] for i in hits)
+                out.append(f"frame:{k}:matches>0:{'all-cfg-not-deeper' if same else 'mixed'}:{ign}")
+        elif k in ("rep", "sub") and at is not None and len(cur) == len(prev) and cur != prev:
+            out.append(f"frame:{k}:{'same-info' if line_info(cur[at], delims) == infos[at] else 'info-changed'}:{ign}")
+        elif k == "del" and len(cur) < len(prev):
+            out.append(f"frame:del:{ign}")
     return out
